@@ -208,6 +208,14 @@ class G:
                 body.append(f"{self.choice(OUTS)} = {c}")
             else:
                 body.append(c)
+        if self.chance(50):
+            # further call sites for callers and callees alike: a function with two call sites is never
+            # inlined, so chains of real calls (dynamic depth >= 2) survive the default options
+            self.features.add("several-call-sites")
+            for f in self.funcs:
+                if self.chance(60):
+                    c = self.call(f, globs, self.funcs)
+                    body.append(f"{self.choice(OUTS)} = {c}" if f["has_ret"] else c)
         for g in globs:
             if self.chance(50):
                 body.append(f"d5.Setting = {g}")
